@@ -91,3 +91,49 @@ def check_c06(tier, replay=None):
     return _run('C06', tier, replay, 1, 10,
                 'every sent and one-edit tampered document of StoneWireMC x {strict, lenient} x {obj, str entry}; '
                 'classified ok(v)/err/unspec by the TLA+ Dec operator; unspecified ones only checked for exception class')
+
+
+# ---------------------------------------------------------------------------- C13
+ANNOT_NCFG = 24
+ANNOT_INVS = ['NoOmittedLeak', 'PresentWithPermission', 'NoRedactedLeak', 'OmittedNotSuppliable',
+              'RefusedOnlyForHiddenTagOrMissing']
+
+
+def check_c13(tier, replay=None):
+    if replay:
+        from wirecheck import AnnotJudge
+        with open(replay) as f:
+            payload = json.load(f)
+        if 'vector' not in payload:
+            print('replay file has no vector (model-level violation): rerun the check')
+            return 2
+        ctx = payload['vector']
+        rep = Report('C13', 'quick')
+        j = AnnotJudge({})
+        j.on_vec('VEC', {'phase': 'schema', 'cfg': ctx['vector']['cfg'], 'schema': ctx['schema'],
+                         'roots': ctx['roots'], 'patched': ctx.get('patched')})
+        j.on_vec('VEC', ctx['vector'])
+        j.finish()
+        rep.states = rep.transitions = 1
+        rep.add_judged({'judged': j.judged, 'violations': j.violations, 'samples': j.samples,
+                        'skipped': j.skipped, 'kinds': j.kinds})
+        return rep.finish()
+    rep = Report('C13', tier)
+    nsh = 12 if tier == 'quick' else 24
+    # quick: the 12 even shards of 24 (every redactor kind, half of the slot types, by seed parity)
+    shards = list(range(24))
+    res = run_shards('StoneAnnotMC',
+                     lambda s: dict(spec='Spec', constants={'Shard': s, 'NShards': ANNOT_NCFG, 'EmitVectors': True},
+                                    invariants=ANNOT_INVS, constraints=['Emit']),
+                     shards, 'wirecheck.AnnotJudge', {}, tlc_kwargs={'timeout': 3000})
+    agg = merge(res)
+    rep.add_tlc('StoneAnnotMC', agg, {'schemas': shards, 'of': ANNOT_NCFG})
+    rep.add_judged(agg)
+    rep.exhaustive = True
+    rep.coverage_extra['rule'] = ('every (schema variant: 4 redactor kinds x 6 redacted slot types; 8 root types; full or public '
+                                  'value with sentinels below every redactor; every subset of {c1,c2} as encoding caller; '
+                                  'redaction on/off; every subset as decoding caller) state of StoneAnnotMC; replayed through '
+                                  'json_encode/json_decode; produced text searched for omitted member names and sentinels and '
+                                  'compared with the predicted document')
+    rep.assumptions = ['TLC 1.8; harness render/project; md5 and the regex engine of the Python standard library as redaction oracles']
+    return rep.finish()
